@@ -2,6 +2,8 @@ package simrt
 
 import (
 	"context"
+	"os"
+	"syscall"
 	"time"
 )
 
@@ -18,6 +20,7 @@ type simCtx struct {
 	done     chan struct{}
 	twin     *Chan[struct{}]
 	err      error
+	cause    error
 	deadline time.Time
 	hasDL    bool
 	children []*simCtx
@@ -45,11 +48,17 @@ func (c *simCtx) Value(key any) any {
 	return c.parent.Value(key)
 }
 
-func (c *simCtx) cancel(err error) {
+func (c *simCtx) cancel(err error) { c.cancelCause(err, nil) }
+
+func (c *simCtx) cancelCause(err, cause error) {
 	if c.err != nil {
 		return
 	}
 	c.err = err
+	if cause == nil {
+		cause = err
+	}
+	c.cause = cause
 	close(c.done)
 	c.twin.closed = true
 	wakeAll(&c.twin.recvq)
@@ -58,7 +67,7 @@ func (c *simCtx) cancel(err error) {
 		c.timer.stop()
 	}
 	for _, ch := range c.children {
-		ch.cancel(err)
+		ch.cancelCause(err, cause)
 	}
 	c.children = nil
 }
@@ -125,3 +134,68 @@ func ErrGroupWithContext(ctx context.Context) (*ErrGroup, context.Context) {
 	c := newCtx(ctx)
 	return &ErrGroup{cancel: func(err error) { c.cancel(context.Canceled) }}, c
 }
+
+// WithCancelCause replaces context.WithCancelCause.
+func WithCancelCause(parent context.Context) (context.Context, context.CancelCauseFunc) {
+	c := newCtx(parent)
+	return c, func(cause error) { yieldPoint(); c.cancelCause(context.Canceled, cause); yieldPoint() }
+}
+
+// WithTimeoutCause / WithDeadlineCause replace their context namesakes.
+func WithDeadlineCause(parent context.Context, t time.Time, cause error) (context.Context, context.CancelFunc) {
+	ctx, cancel := WithDeadline(parent, t)
+	c := ctx.(*simCtx)
+	if c.timer != nil {
+		c.timer.stop()
+		c.timer = addTimer(t.Sub(Now()), func() { c.cancelCause(context.DeadlineExceeded, cause) })
+	}
+	return ctx, cancel
+}
+
+func WithTimeoutCause(parent context.Context, d time.Duration, cause error) (context.Context, context.CancelFunc) {
+	return WithDeadlineCause(parent, Now().Add(d), cause)
+}
+
+// Cause replaces context.Cause.
+func Cause(ctx context.Context) error {
+	if c, ok := ctx.Value(&simCtxKey).(*simCtx); ok {
+		// the nearest simulated ancestor knows (it was cancelled with its parents)
+		if c.err != nil {
+			return c.cause
+		}
+		return nil
+	}
+	return context.Cause(ctx)
+}
+
+// NotifyContext replaces signal.NotifyContext. No signal is ever sent to a
+// simulated process from outside. One signal a Go program sends to itself:
+// SIGURG, with which the runtime pre-empts a goroutine that has been running
+// for about 10 ms. A context subscribed to *all* signals (empty list) is
+// therefore cancelled after 10..20 ms of simulated computing (seeded).
+func NotifyContext(parent context.Context, sigs ...os.Signal) (context.Context, context.CancelFunc) {
+	c := newCtx(parent)
+	if len(sigs) == 0 && c.err == nil {
+		d := 10*time.Millisecond + time.Duration(schedRNG.intn(10_000))*time.Microsecond
+		c.timer = addTimer(d, func() { journal.Faults = append(journal.Faults, "signal:SIGURG:runtime-preemption"); c.cancel(context.Canceled) })
+	}
+	return c, func() { yieldPoint(); c.cancel(context.Canceled) }
+}
+
+// SignalNotify replaces signal.Notify (same reasoning as NotifyContext).
+func SignalNotify(ch *Chan[os.Signal], sigs ...os.Signal) {
+	if len(sigs) == 0 && ch != nil {
+		d := 10*time.Millisecond + time.Duration(schedRNG.intn(10_000))*time.Microsecond
+		addTimer(d, func() {
+			journal.Faults = append(journal.Faults, "signal:SIGURG:runtime-preemption")
+			if ch.canSend() && !ch.closed {
+				ch.trySend(syscall.SIGURG)
+			}
+		})
+	}
+}
+
+// SignalStop, SignalIgnore, SignalReset replace signal.Stop/Ignore/Reset.
+func SignalStop(ch *Chan[os.Signal]) {}
+func SignalIgnore(sigs ...os.Signal) {}
+func SignalReset(sigs ...os.Signal)  {}
